@@ -442,6 +442,70 @@ fn run_ops(case: &str) -> (String, String, String) {
                     }
                 }
             }
+            ["tr", a, cs] => {
+                // the real `trap` built-in on this environment: `trap ACTION COND…`
+                let names: Vec<&str> = cs.split(',').collect();
+                if names.iter().any(|n| cond_of(n).is_none()) {
+                    return bad();
+                }
+                let (text, want_action) = match a.split_at(1) {
+                    ("d", "") => ("-".to_string(), Action::Default),
+                    ("i", "") => (String::new(), Action::Ignore),
+                    ("c", n) if n.parse::<u64>().is_ok() => {
+                        let tail = match n.parse::<u64>().unwrap() / 1000 {
+                            1 => "return 3",
+                            2 => "exit 4",
+                            3 => "false",
+                            4 => ": ${U?}",
+                            _ => "st 7",
+                        };
+                        let t = format!("probe {n}; {tail}");
+                        (t.clone(), Action::Command(t.into()))
+                    }
+                    _ => return bad(),
+                };
+                use yash_env::semantics::Field;
+                let mut fields = vec![Field { value: text, origin: Location::dummy(k.to_string()) }];
+                for n in &names {
+                    fields.push(Field { value: n.to_string(), origin: Location::dummy(k.to_string()) });
+                }
+                // (an entry that a subshell entry turned into `{Ignore, Inherited}` is refused like one
+                //  ignored on entry: the observation recorded in notes/C11.md)
+                let inherited_ignore: Vec<bool> = names
+                    .iter()
+                    .map(|n| {
+                        w.env.traps.get_state(cond_of(n).unwrap()).0.is_some_and(|t| t.action == Action::Ignore && t.origin == Origin::Inherited)
+                    })
+                    .collect();
+                let res = yash_builtin::trap::main(&mut w.env, fields).now_or_never();
+                let Some(res) = res else { return ("TIMEOUT(trap)".into(), "FAIL:timeout".into(), String::new()) };
+                // per condition of the command: ignored on entry (and never overridden) -> untouched;
+                // every other listed condition -> the action (KILL/STOP make the command fail: not judged)
+                let has_ks = names.iter().any(|n| *n == "KILL" || *n == "STOP");
+                if !has_ks {
+                    for (i, n) in names.iter().enumerate() {
+                        let cond = cond_of(n).unwrap();
+                        let sticky = inherited_ignore[i]
+                            || match cond {
+                                Condition::Signal(sn) => l.ignored_on_entry.contains(&sn) && !l.overridden.contains(&sn),
+                                _ => false,
+                            };
+                        let cur = w.env.traps.get_state(cond).0;
+                        let ok = if sticky {
+                            cur.is_some_and(|t| t.action == Action::Ignore && t.origin == Origin::Inherited)
+                        } else {
+                            cur.is_some_and(|t| t.action == want_action && matches!(&t.origin, Origin::User(_)))
+                        };
+                        if !ok {
+                            fail = Some(format!("trap-skipped-condition:{n}"));
+                        }
+                    }
+                    if res.exit_status() != ExitStatus(0) {
+                        fail = Some("trap-command-failed".into());
+                    }
+                }
+                format!("st{}", res.exit_status().0)
+            }
             ["blk", b] => {
                 // batches `A+B/C+INT`: the last one, and only it, contains INT
                 let mut batches: Vec<Vec<Number>> = vec![];
@@ -965,7 +1029,7 @@ fn run_tb_case(case: &str) -> (String, String) {
     }
     let mut ign: Vec<Number> = vec![];
     if parts.first().and_then(|p| p.first()) == Some(&"ign") {
-        ign = parts[0][1..].iter().filter_map(|s| sig_of(s)).collect();
+        ign = parts[0][1..].iter().filter_map(|s| any_sig_of(s)).collect();
         parts.remove(0);
     }
     // `W` leaves a child running when a trap interrupts the wait: it must be the last statement that
@@ -982,6 +1046,7 @@ fn run_tb_case(case: &str) -> (String, String) {
         script.push_str(&t);
         script.push('\n');
     }
+    let ign_set: Vec<Number> = ign.clone();
     let cell: Rc<std::cell::RefCell<Option<(Rc<std::cell::RefCell<yash_env::system::r#virtual::SystemState>>, yash_env::job::Pid)>>> =
         Rc::new(std::cell::RefCell::new(None));
     let cell2 = Rc::clone(&cell);
@@ -1015,6 +1080,46 @@ fn run_tb_case(case: &str) -> (String, String) {
     let mut oracle = "ok".to_string();
     if end == "stuck" {
         oracle = "FAIL:stuck".into();
+    }
+    // `T a OPS; PC OPS; R 77` (all operands valid, no KILL/STOP): right before the sentinel line, `trap -p`
+    // must print, per operand, `''` for a signal ignored on entry and the action for every other one
+    for i in 0..parts.len().saturating_sub(2) {
+        if let (["T", a, ops @ ..], ["PC", ops2 @ ..], ["R", "77"]) =
+            (parts[i].as_slice(), parts[i + 1].as_slice(), parts[i + 2].as_slice())
+        {
+            use yash_env::system::Signals as _;
+            let sys = VirtualSystem::new();
+            let conds: Option<Vec<Condition>> = ops
+                .iter()
+                .map(|o| match o.parse::<i32>() {
+                    Ok(0) => Some(Condition::Exit),
+                    Ok(n) => sys.to_signal_number(n).map(Condition::Signal),
+                    Err(_) if *o == "EXIT" => Some(Condition::Exit),
+                    Err(_) => sys.str2sig(o).map(Condition::Signal),
+                })
+                .collect();
+            let Some(conds) = conds else { continue };
+            if ops != ops2 || ops.is_empty() || conds.iter().any(|c| matches!(c, Condition::Signal(n) if *n == SIGKILL || *n == SIGSTOP)) {
+                continue;
+            }
+            let a_canon = if *a == "E" || *a == "-" { a.to_string() } else { a.to_string() };
+            let want: Vec<String> = conds
+                .iter()
+                .map(|c| {
+                    let ignored = matches!(c, Condition::Signal(n) if ign_set.contains(n));
+                    format!("T:{}:{}", if ignored { "E" } else { a_canon.as_str() }, c.to_string(&sys))
+                })
+                .collect();
+            let sentinel = format!(":{}", enc_str("77"));
+            if let Some(pos) = lines.iter().position(|l| l.ends_with(&sentinel) && !l.starts_with("T:")) {
+                let got: Vec<String> = lines[pos.saturating_sub(want.len())..pos].to_vec();
+                if got != want {
+                    oracle = format!("FAIL:trap-command-skipped-a-condition:want={}:got={}", want.join("+"), got.join("+"));
+                }
+            } else if end == "exit" {
+                oracle = "FAIL:sentinel-missing".into();
+            }
+        }
     }
     for l in &lines {
         let ok = l == "-" || l.starts_with("T:") || l.split_once(':').is_some_and(|(a, b)| a.parse::<i32>().is_ok() && yverif::proto::dec_str(b).is_some());
@@ -1159,6 +1264,12 @@ fn random_op(r: &mut Rng, sigs: &[&str]) -> String {
                 _ => format!("c{}", 1000 * r.below(5) + 1 + r.below(3)),
             };
             format!("set {c} {a} {}", if r.chance(1, 4) { 1 } else { 0 })
+        }
+        6 if r.chance(1, 2) => {
+            let a = match r.below(4) { 0 => "d".to_string(), 1 => "i".to_string(), _ => format!("c{}", 1 + r.below(3)) };
+            let n = 2 + r.below(3);
+            let cs: Vec<&str> = (0..n).map(|_| if r.chance(1, 6) { "EXIT" } else { *r.pick(sigs) }).collect();
+            format!("tr {a} {}", cs.join(","))
         }
         6 => "chld".into(),
         7 => r.pick(&["term+", "term-"]).to_string(),
@@ -1343,6 +1454,25 @@ fn main() {
     lazy("set USR1 c1 0; blk USR1+INT; run 5");
     lazy("term+; set INT c2 0; set USR1 c1 0; blk USR1+INT; run 5");
 
+    // 4c. one `trap` command with several conditions: an ignored-on-entry signal, EXIT, KILL at every
+    //     position of the list, every action; then the state is used (deliver, run, peek)
+    let lists3: [[&str; 3]; 6] = [
+        ["QUIT", "INT", "TERM"], ["INT", "QUIT", "TERM"], ["INT", "TERM", "QUIT"],
+        ["QUIT", "EXIT", "USR1"], ["EXIT", "QUIT", "USR1"], ["USR1", "EXIT", "QUIT"],
+    ];
+    for ig in ["ign QUIT; ", "ign QUIT INT; ", "ign QUIT; peek QUIT; ", "ign QUIT; set QUIT c9 1; ", ""] {
+        for act in ["c1", "i", "d", "c1001"] {
+            for l3 in lists3 {
+                let case = format!("{ig}tr {act} {}; deliver {}; deliver {}; run 5; peek {}", l3.join(","), l3[1], l3[2], l3[0]);
+                lazy(&case);
+                let case = format!("{ig}set {} c2 0; tr {act} {},{}; tr d {}; take", l3[2], l3[0], l3[2], l3[1]);
+                lazy(&case);
+            }
+            lazy(&format!("{ig}tr {act} QUIT; tr {act} INT,KILL,TERM; tr {act} KILL,QUIT,USR1; peek USR1"));
+            lazy(&format!("{ig}tr {act} QUIT,QUIT,INT,QUIT,TERM,EXIT,CHLD,TSTP; chld; sub 1 0; tr {act} QUIT,INT"));
+        }
+    }
+
     // 5. the same at script level: traps that return / exit / fail / redefine themselves, signals
     //    sent together inside a function, a nested group or a dot script, by a built-in or from a
     //    foreground subshell, optionally delivered a second time
@@ -1398,6 +1528,15 @@ fn main() {
                 for tail in tails {
                     emit_tb(format!("tb {ig}T c9 USR2; T {a} {ops}; {tail}"), &mut out);
                 }
+            }
+        }
+    }
+    // (a') several conditions in one command with an ignored-on-entry signal first / in the middle / last,
+    //      mixed with EXIT; what `trap -p` then prints, what a signal then does
+    for ig in ["ign HUP; ", "ign HUP INT; ", "ign TERM; "] {
+        for a in ["c1", "E", "-", "k2"] {
+            for ops in ["HUP INT TERM", "INT HUP TERM", "INT TERM HUP", "HUP 0 USR1", "0 HUP USR1", "USR1 0 HUP", "1 2 15 EXIT"] {
+                emit_tb(format!("tb {ig}T c9 USR2; T {a} {ops}; PC {ops}; R 77; K USR1; R 1; K INT; R 2"), &mut out);
             }
         }
     }
